@@ -716,6 +716,7 @@ class Hypergraph:
                     warn(f"uid {idx} already exists, cannot add edge {members}.")
                     continue
                 try:
+                    members = list(members)  # members may be a one-shot iterator
                     member_set = set(members)
                 except TypeError as e:
                     raise XGIError("Invalid ebunch format") from e
@@ -779,6 +780,7 @@ class Hypergraph:
                 warn(f"uid {idx} already exists, cannot add edge {members}.")
             else:
                 try:
+                    members = list(members)  # members may be a one-shot iterator
                     member_set = set(members)
                 except TypeError as e:
                     raise XGIError("Invalid ebunch format") from e
